@@ -146,6 +146,14 @@ def gen_load_case(rng: random.Random, tier: str, prop: str, k: int = -1) -> Dict
     if cfg.pre_ops == 0 and cfg.n_steps == 0 and cfg.post_ops == 0:
         cfg.pre_ops = 1
     ranks = gen.gen_trace_set(rng, cfg)
+    if cfg.frac > 1:
+        # the loader's inward rounding is switched per file by the dtype of the ts column: a file whose start times all happen to be
+        # whole numbers written as integers is not rounded at all (that input class is exercised under C03 / C04-C07 / C08-C10 / C17 /
+        # C19).  Here every file with fractional values carries at least one float-typed start time.
+        for r in ranks:
+            if not any(isinstance(e.get("ts"), float) for e in r.events):
+                e = next(e for e in r.events if "ts" in e)
+                e["ts"] = float(e["ts"])
     for r in ranks:   # mixed formats inside one trace set
         r.fmt = rng.choice(["json", "json.gz"])
     if cfg.frac == 1 and rng.random() < (0.15 if cfg.extras else 0.5):
